@@ -6,6 +6,7 @@ import (
 	"fmt"
 	"os"
 	"path/filepath"
+	"runtime/debug"
 	"sort"
 	"strconv"
 	"strings"
@@ -417,6 +418,13 @@ func Parallel(n, w int, fn func(i int)) {
 		wg.Add(1)
 		go func() {
 			defer wg.Done()
+			defer func() {
+				if p := recover(); p != nil {
+					// a bug of the harness itself: never a verdict about the code under test
+					fmt.Printf("BROKEN-CHECK harness panic: %v\n%s\n", p, debug.Stack())
+					os.Exit(2)
+				}
+			}()
 			for {
 				mu.Lock()
 				i := next
